@@ -752,38 +752,76 @@ def cs1(ctx, R):
 
 @rule("ES1", "the window loop numbers segments from the first segment of the window", floor=1)
 def es1(ctx, R):
+    """In normal form: the loop draws (number, segment) pairs from enumerate(<slice lo:hi of the segments>, start) with start == lo,
+    the chunk offset handed to the segment reader is adjusted under `number == lo` and the chunk count under `number == hi - 1`."""
+    from .sym import Sym, show, alpha, simplify
+    from .sem import find, W, mentions
     prog = ctx.prog
     fi = prog.func("reader.TdmsReader.read_raw_data_for_channel")
-    loops = [n for n in walk_body(fi.node) if isinstance(n, ast.For) and "self._segments" in unparse(n.iter)]
-    if not loops:
-        raise AnchorMissing("reader.TdmsReader.read_raw_data_for_channel: loop over self._segments")
-    lp = loops[0]
-    it = lp.iter
-    if isinstance(it, ast.Call) and call_name(it) == "enumerate":
-        sl = it.args[0]
-        start = it.args[1] if len(it.args) > 1 else None
-        for k in it.keywords:
-            if k.arg == "start":
-                start = k.value
-        lower = sl.slice.lower if isinstance(sl, ast.Subscript) and isinstance(sl.slice, ast.Slice) else None
-        good = start is not None and lower is not None and unparse(start).replace("int(", "").rstrip(")") == unparse(lower)
-        R.check(good, "reader.TdmsReader.read_raw_data_for_channel::enumerate start", fi.where(lp),
-                "segment numbers start at the slice's first segment", "enumerate(%s, start=%s): the segment number does not start at the slice's lower bound, "
-                "so the comparisons with start_segment / end_segment pick the wrong segments" % (unparse(sl), unparse(start) if start is not None else "0"))
-        idx = lp.target.elts[0].id if isinstance(lp.target, ast.Tuple) and isinstance(lp.target.elts[0], ast.Name) else None
+    RF, loops, calls, roots = _channel_window(ctx, fi)
+    lfr, lp, sls = loops[0]
+    lfun = lfr[-1][0]
+    key = "reader.TdmsReader.read_raw_data_for_channel"
+    sy = Sym(prog, lfun, lfun.cls)
+    env, _g = sy.env_at(lp)
+    it = sy.expr(lp.iter, env)
+    en = find(it, ("call", "enumerate", W("args"), W("kw"))) if it else []
+
+    def strip_int(v):
+        while isinstance(v, tuple) and v and v[0] == "call" and v[1] == "int" and len(v[2]) == 1:
+            v = v[2][0]
+        return v
+    if not en or not sls:
+        R.undecided(key + "::segment numbering", lfun.where(lp), "segments are not numbered by enumerate(<slice of the segments>, start): %s (a hand-maintained "
+                    "counter's increments are checked by CS1; its initial value is not decided)" % show(alpha(it))[:100])
+        return
+    m = en[0][1]
+    args, kws = m["args"], dict(m["kw"]) if isinstance(m["kw"], (list, tuple)) else {}
+    start = args[1] if len(args) > 1 else kws.get("start")
+    sl = find(args[0], ("sub", W(), ("slice", W("lo"), W("hi"), W()))) if args else []
+    if not sl:
+        R.undecided(key + "::segment numbering", lfun.where(lp), "enumerate over something other than a slice: %s" % show(alpha(args[0]))[:100])
+        return
+    LO, HI = sl[0][1]["lo"], sl[0][1]["hi"]
+    good = start is not None and strip_int(start) == strip_int(LO)
+    R.check(good, key + "::enumerate start", lfun.where(lp), "segment numbers start at the slice's first segment",
+            "enumerate(.., start=%s) over the slice starting at %s: the segment number does not start at the slice's lower bound, so the comparisons that "
+            "select the first and last segment of the window pick the wrong segments" % (show(start) if start is not None else "0", show(LO)))
+    # the adjustments are keyed on that number
+    cfr, c = calls[0]
+    cfun = cfr[-1][0]
+    if cfun is not lfun:
+        R.undecided(key + "::first/last segment adjustments", cfun.where(c), "the segment read is not in the function that numbers the segments")
+        return
+    callee = prog.func("tdms_segment.TdmsSegment.read_raw_data_for_channel")
+    cp = [p for p in callee.params if p != "self"]
+    bound = dict(zip(cp, c.args))
+    bound.update({k.arg: k.value for k in c.keywords if k.arg})
+    cenv, _g2 = sy.env_at(c)
+    co = sy.expr(bound[cp[2]], cenv) if len(cp) > 2 and cp[2] in bound else None
+    nc = sy.expr(bound[cp[3]], cenv) if len(cp) > 3 and cp[3] in bound else None
+
+    def keyed(v, want):
+        cmps = find(v, ("cmp", "==", W("a"), W("b"))) if v is not None else []
+        sides = [(strip_int(x[1]["a"]), strip_int(x[1]["b"])) for x in cmps]
+        return any(want(a, b) or want(b, a) for a, b in sides), sides
+    is_num = lambda t: isinstance(t, tuple) and t and t[0] in ("item", "sub") and mentions(t, "bv") or (isinstance(t, tuple) and t and t[0] == "bv")
+    lo_s = strip_int(LO)
+    first_ok, s1 = keyed(co, lambda a, b: b == lo_s)
+    hi_s = strip_int(HI)
+    last_ok, s2 = keyed(nc, lambda a, b: hi_s == ("binop", "+", (b, ("const", 1))) or hi_s == ("binop", "+", (("const", 1), b)) or
+                        (b[0] == "binop" and b[1] == "-" and strip_int(b[2][0]) == hi_s and b[2][1] == ("const", 1)))
+    if co is None or nc is None or co[0] == "opaque" or nc[0] == "opaque":
+        R.undecided(key + "::first/last segment adjustments", lfun.where(c), "chunk offset / chunk count handed to the segment reader not in normal form")
+    elif first_ok and last_ok:
+        R.ok(key + "::first/last segment adjustments", lfun.where(c), "the chunk offset is adjusted under number == %s and the chunk count under number == %s - 1" % (
+            show(alpha(lo_s))[:40], show(alpha(hi_s))[:40]))
+    elif (s1 and not first_ok) or (s2 and not last_ok):
+        R.violation(key + "::first/last segment adjustments", lfun.where(c), "the first-segment or last-segment adjustment is not keyed on the window's first (%s) / "
+                    "last (%s - 1) segment number: comparisons found %s / %s" % (show(alpha(lo_s))[:40], show(alpha(hi_s))[:40],
+                                                                                 sorted({show(alpha(b))[:40] for a, b in s1}), sorted({show(alpha(b))[:40] for a, b in s2})))
     else:
-        # manual counter: CS1 covers the increment; it must be initialised with the slice's lower bound
-        idx = None
-        sl = it
-        lower = sl.slice.lower if isinstance(sl, ast.Subscript) and isinstance(sl.slice, ast.Slice) else None
-        R.undecided("reader.TdmsReader.read_raw_data_for_channel::manual segment counter", fi.where(lp),
-                    "segments are numbered by a hand-maintained counter (its increments are checked by CS1; its initial value is not decided)")
-    # both first- and last-segment adjustments are present and keyed on that number
-    tests = [unparse(n.test) for n in ast.walk(lp) if isinstance(n, ast.If)]
-    R.check(any("== start_segment" in t for t in tests) and any("== end_segment" in t for t in tests),
-            "reader.TdmsReader.read_raw_data_for_channel::first/last segment adjustments", fi.where(lp),
-            "leading values are skipped in the first and trailing chunks dropped in the last segment",
-            "the first-segment or last-segment adjustment is missing")
+        R.undecided(key + "::first/last segment adjustments", lfun.where(c), "no comparison of the segment number found in the chunk offset / chunk count")
 
 
 @rule("CS2", "data and every scaler array are windowed by the same slice", floor=2)
@@ -885,6 +923,69 @@ def nt1(ctx, R):
 # ---------------------------------------------------------------------------
 # C19 (and the window clauses of C04)
 
+def _channel_window(ctx, fi):
+    """The window loop of the per-channel read, wherever the refactoring of the day put it: the entry point and the helpers of its
+    module that it calls (with the bindings of their parameters), the loops over (a slice of) self._segments that feed the segment
+    read, and the segment read calls."""
+    from .region import call_targets, backward_slice, data_roots
+    prog = ctx.prog
+    callee = prog.func("tdms_segment.TdmsSegment.read_raw_data_for_channel")
+
+    def region_frames(depth=2):
+        out = [((fi, {}),)]
+        seen = {fi.qual}
+        level = list(out)
+        for _ in range(depth):
+            nxt = []
+            for fr in level:
+                g = fr[-1][0]
+                for c in walk_body(g.node):
+                    if isinstance(c, ast.Call):
+                        for q in call_targets(ctx, g, c):
+                            h = prog.functions.get(q)
+                            if h is None or h.module is not fi.module or q in seen:
+                                continue
+                            seen.add(q)
+                            ps = [p for p in h.params if not (h.cls is not None and not h.is_static and p in ("self", "cls"))]
+                            b = dict(zip(ps, c.args))
+                            b.update({k.arg: k.value for k in c.keywords if k.arg})
+                            nxt.append(fr + ((h, b),))
+            out += nxt
+            level = nxt
+        return out
+
+    def roots(frames, e):
+        """parameters of the entry point that e (in the innermost frame) is computed from, by data flow"""
+        out = set()
+        for fr, x in backward_slice(ctx, frames[-1][0], e, frames=frames):
+            out |= data_roots(ctx, fr, x)
+        return out
+    RF = region_frames()
+    calls = []
+    for fr in RF:
+        g = fr[-1][0]
+        for c in walk_body(g.node):
+            if isinstance(c, ast.Call) and isinstance(c.func, ast.Attribute) and c.func.attr == callee.name and not (
+                    dotted(c.func.value) == "self") and (callee.qual in call_targets(ctx, g, c) or not call_targets(ctx, g, c)):
+                calls.append((fr, c))
+    if not calls:
+        raise AnchorMissing("reader.TdmsReader.read_raw_data_for_channel: call of segment.read_raw_data_for_channel")
+    loops = []          # (frames, loop, [(frames of the slice, slice subscript)])
+    for fr in RF:
+        g = fr[-1][0]
+        for n in walk_body(g.node):
+            if isinstance(n, ast.For) and any(isinstance(x, ast.Yield) or any(x is c for _f, c in calls) for x in ast.walk(n)):
+                src = backward_slice(ctx, g, n.iter, frames=fr)
+                segs = [(f2, x) for f2, e in src for x in ast.walk(e) if dotted(x) == "self._segments"]
+                if segs:
+                    sls = [(f2, x) for f2, e in src for x in ast.walk(e)
+                           if isinstance(x, ast.Subscript) and isinstance(x.slice, ast.Slice) and dotted(x.value) == "self._segments"]
+                    loops.append((fr, n, sls))
+    if not loops:
+        raise AnchorMissing("reader.TdmsReader.read_raw_data_for_channel: loop over self._segments")
+    return RF, loops, calls, roots
+
+
 @rule("BD1", "the per-channel window read is bounded by the request: segment slice, chunk offset and chunk count depend on it", floor=7)
 def bd1(ctx, R):
     """Dependence analysis through local assignments and helpers (sa/region.py): which request parameters the segment slice, the
@@ -898,38 +999,25 @@ def bd1(ctx, R):
     if len(params) < 3:
         raise AnchorMissing("reader.TdmsReader.read_raw_data_for_channel(channel_path, offset, length)")
     OFF, LEN = params[1], params[2]
-    sy = Sym(prog, fi, fi.cls)
-    loops = []
-    for n in walk_body(fi.node):
-        if isinstance(n, ast.For):
-            env, _g = sy.env_at(n)
-            it = sy.expr(n.iter, env)
-            if find(it, ("self", "_segments")):
-                loops.append((n, it))
-    if not loops:
-        raise AnchorMissing("reader.TdmsReader.read_raw_data_for_channel: loop over self._segments")
-    lp, it = loops[0]
-    sl = [n for n in ast.walk(lp.iter) if isinstance(n, ast.Subscript) and isinstance(n.slice, ast.Slice)]
-    if not sl or not find(it, ("sub", ("self", "_segments"), ("slice", W(), W(), W()))):
-        R.violation("reader.TdmsReader.read_raw_data_for_channel::segment window", fi.where(lp), "the loop iterates all segments instead of the slice "
+    RF, loops, calls, roots = _channel_window(ctx, fi)
+    lfr, lp, sls = loops[0]
+    lfun = lfr[-1][0]
+    if not sls:
+        R.violation("reader.TdmsReader.read_raw_data_for_channel::segment window", lfun.where(lp), "the loop iterates all segments instead of the slice "
                     "[first overlapping segment : last overlapping segment]")
     else:
-        s_ = sl[0].slice
-        lo = cone(ctx, fi, s_.lower) if s_.lower is not None else set()
-        hi = cone(ctx, fi, s_.upper) if s_.upper is not None else set()
-        searched = len(find(it, ("call", "numpy.searchsorted", W(), W()))) >= 2 or len(
-            [c for c in walk_body(fi.node) if isinstance(c, ast.Call) and (call_name(c) or "").endswith("searchsorted")]) >= 2
-        R.check(OFF in lo and searched, "reader.TdmsReader.read_raw_data_for_channel::first segment by binary search", fi.where(lp),
+        sfr, sub = sls[0]
+        s_ = sub.slice
+        lo = roots(sfr, s_.lower) if s_.lower is not None else set()
+        hi = roots(sfr, s_.upper) if s_.upper is not None else set()
+        searched = sum(1 for fr in RF for c in walk_body(fr[-1][0].node) if isinstance(c, ast.Call) and (call_name(c) or "").endswith("searchsorted")) >= 2
+        R.check(OFF in lo and searched, "reader.TdmsReader.read_raw_data_for_channel::first segment by binary search", lfun.where(lp),
                 "lower bound depends on searchsorted(segment_offsets, offset)", "the first segment read does not depend on the requested offset")
-        R.check(LEN in hi, "reader.TdmsReader.read_raw_data_for_channel::last segment by binary search", fi.where(lp),
+        R.check(LEN in hi, "reader.TdmsReader.read_raw_data_for_channel::last segment by binary search", lfun.where(lp),
                 "upper bound depends on searchsorted(segment_offsets, offset + length)", "the last segment read does not depend on the requested length")
     callee = prog.func("tdms_segment.TdmsSegment.read_raw_data_for_channel")
-    calls = [c for c in calls_to(prog, fi, callee.qual) if any(x is c for x in ast.walk(lp))]
-    if not calls:
-        calls = [c for c in ast.walk(lp) if isinstance(c, ast.Call) and isinstance(c.func, ast.Attribute) and c.func.attr == callee.name]
-    if not calls:
-        raise AnchorMissing("reader.TdmsReader.read_raw_data_for_channel: call of segment.read_raw_data_for_channel")
-    c = calls[0]
+    cfr, c = calls[0]
+    cfun = cfr[-1][0]
     cp = [p for p in callee.params if p != "self"]
     bound = {}
     for i_, a in enumerate(c.args):
@@ -939,15 +1027,15 @@ def bd1(ctx, R):
         bound[k.arg] = k.value
     co = bound.get(cp[2]) if len(cp) > 2 else None
     nc = bound.get(cp[3]) if len(cp) > 3 else None
-    co_cone = cone(ctx, fi, co) if co is not None else set()
-    R.check(co is not None and OFF in co_cone and not isinstance(co, ast.Constant), "reader.TdmsReader.read_raw_data_for_channel::chunk_offset", fi.where(c),
+    co_cone = roots(cfr, co) if co is not None else set()
+    R.check(co is not None and OFF in co_cone and not isinstance(co, ast.Constant), "reader.TdmsReader.read_raw_data_for_channel::chunk_offset", cfun.where(c),
             "leading chunks before the window are skipped (chunk_offset depends on offset)",
             "chunk_offset passed to the segment reader (`%s`) does not depend on the requested offset: all leading chunks are read and trimmed afterwards" % (
                 unparse(co) if co is not None else "default 0"))
     # num_chunks must depend on the END of the window by data flow (the loop variable depends on the slice bounds, which would make
     # everything in the loop 'depend' on the length)
-    nc_data = cone(ctx, fi, nc, loops=False) if nc is not None else set()
-    R.check(nc is not None and LEN in nc_data, "reader.TdmsReader.read_raw_data_for_channel::num_chunks", fi.where(c),
+    nc_data = roots(cfr, nc) if nc is not None else set()
+    R.check(nc is not None and LEN in nc_data, "reader.TdmsReader.read_raw_data_for_channel::num_chunks", cfun.where(c),
             "trailing chunks after the window are not read (num_chunks depends on the window end)",
             "the number of chunks requested from the last segment (`%s`) does not depend on where the window ends: every remaining chunk of the "
             "segment is read (for interleaved data in one go) and the surplus is trimmed afterwards" % (unparse(nc) if nc is not None else "None = to the end"))
@@ -955,7 +1043,7 @@ def bd1(ctx, R):
     # request offset's skip count, i.e. of the segment's own length; or the reader consults the recorded final chunk lengths
     aware = False
     if nc is not None:
-        for frames, e in backward_slice(ctx, fi, nc):
+        for frames, e in backward_slice(ctx, cfun, nc, frames=cfr):
             g = frames[-1][0]
             for x in ast.walk(e):
                 left = None
@@ -969,7 +1057,7 @@ def bd1(ctx, R):
                         aware = True
                 if isinstance(x, ast.Attribute) and x.attr == "final_chunk_lengths_override":
                     aware = True
-    R.check(aware, "reader.TdmsReader.read_raw_data_for_channel::truncated final chunk", fi.where(c),
+    R.check(aware, "reader.TdmsReader.read_raw_data_for_channel::truncated final chunk", cfun.where(c),
             "the chunk count dropped at the window end accounts for a shorter final chunk (segment length modulo chunk size)",
             "the number of trailing chunks to drop is computed as if every chunk were full: with a truncated final chunk one chunk too many or too "
             "few is read and the trim becomes negative")
@@ -1110,7 +1198,12 @@ def ch1(ctx, R):
     after = cfg.reach([m for f in fetch for m, k in f.succ if k not in ("exc", "uncaught")], follow_exc=False)
     R.check(not any(h in after for h in hits), "tdms.TdmsChannel._read_at_index::fetch only on a miss", fi.where(fetch[0].ast),
             "a value served from the cache is returned before any chunk is fetched", "a chunk is fetched from the file even when the cached chunk holds the value")
-    vs = prog.func("reader.TdmsReader._verify_segment_start")
+    from .rules_index import _segment_verifiers
+    vers = _segment_verifiers(ctx)
+    if not vers:
+        raise AnchorMissing("a function that seeks to <segment>.position and raises when what it finds there is not a segment start")
+    vq = sorted(vers)[0]
+    vs = vers[vq][0]
     sv = Sym(prog, vs, vs.cls)
     reads = [c for c in walk_body(vs.node) if isinstance(c, ast.Call) and isinstance(c.func, ast.Attribute) and c.func.attr == "read"]
     nbytes = None
@@ -1121,5 +1214,5 @@ def ch1(ctx, R):
             nbytes = v[1]
         elif v[0] == "len" and v[1][0] == "const" and isinstance(v[1][1], (bytes, str)):
             nbytes = len(v[1][1])
-    R.check(len(reads) == 1 and nbytes == 4, "reader.TdmsReader._verify_segment_start::constant 4 bytes", vs.where(),
+    R.check(len(reads) == 1 and nbytes == 4, "%s::constant 4 bytes" % vq, vs.where(),
             "the per-segment overhead is one 4-byte tag read", "the segment start check reads %s" % [unparse(r) for r in reads])
